@@ -65,7 +65,9 @@ SortByPos(H, S, kids) ==
                 IF Ls = {} THEN 1000000 + IndexIn(kids, k) ELSE MinOf({S.leaves[x].pos : x \in Ls})
   IN SortSeq(kids, LAMBDA a, b : key(a) < key(b))
 Repeat(s, n) == LET F[k \in 0..n] == IF k = 0 THEN <<>> ELSE F[k-1] \o s IN F[IF n < 0 THEN 0 ELSE n]
-LeafImage(H, S, i, mode) == IF mode = "stim" THEN StimOf(H[i]) ELSE OpenQLOf(H[i], S.leaves[i].dur_v)
+LeafImage(H, S, i, mode) == CASE mode = "stim" -> StimOf(H[i])
+                              [] mode = "kinds" -> << Ins(H[i].kind, [j \in 1..Len(H[i].qs) |-> Qt(H[i].qs[j])], <<>>) >>     \* the listing itself, blocks repeated
+                              [] OTHER -> OpenQLOf(H[i], S.leaves[i].dur_v)
 \* Named deviation (known finding S8): the OpenQL exporter adds nested sub-programs while it walks and its own kernel last, so
 \* within every block all nested blocks come first, then the block's own gates.
 RECURSIVE DevSubFirst(_, _, _, _)
@@ -88,6 +90,9 @@ ImageOf(H, E, S, i, mode) ==
 \* the top circuit's own repetition count is NOT applied by the exporters (only nested blocks are repeated)
 StimImage(H, E, S, c) == ImageOf(H, E, S, c, "stim")
 OpenQLImage(H, E, S, c) == ImageOf(H, E, S, c, "openql")
+\* the listing an unrolled circuit must have: every block's listing repeated its count (C06, library circuits); the top-level
+\* circuit's own count applies too
+ExpandedListing(H, E, S, c) == Repeat(ImageOf(H, E, S, c, "kinds"), EvalRep(E, H[c].rep))
 
 \* splitting fused targets: a k-target one-qubit instruction = k instructions (the reader does the same on the real output)
 Arity(name) == IF name \in {"CZ", "cz"} THEN 2 ELSE IF name \in {"TICK", "DETECTOR", "OBSERVABLE_INCLUDE", "SHIFT_COORDS", "barrier", "wait"} THEN 0 ELSE 1
